@@ -536,6 +536,8 @@ class Scheduler:
             if other.state == JobState.ERROR:
                 logger.info("Re-submitting job")
                 self.xp.unfinishedJobs += 1
+                # The new job is now the one known for this identifier
+                self.jobs[job.identifier] = job
             else:
                 logger.warning("Job %s already submitted", job.identifier)
                 return other
